@@ -6,6 +6,7 @@ package c12
 import (
 	"encoding/json"
 	"fmt"
+	"math"
 	"math/rand"
 	"os"
 	"runtime"
@@ -89,8 +90,12 @@ func runRound(c roundCfg) (fs []tmon.Finding, nFut int, stats map[string]int64, 
 					d = equalD
 				case x < 90:
 					d = time.Duration(1000+r.Intn(49000)) * time.Microsecond
-				default:
+				case x < 96:
 					d = time.Duration(10+r.Intn(50)) * time.Second
+					far = true
+				default:
+					// "never": the largest durations there are (and a few hundred years); must not start
+					d = []time.Duration{math.MaxInt64, math.MaxInt64 - 1, math.MaxInt64 - time.Duration(r.Int63n(int64(2*time.Millisecond))), 290 * 365 * 24 * time.Hour, math.MaxInt64 / 2}[r.Intn(5)]
 					far = true
 				}
 				switch c.Mode {
@@ -249,7 +254,7 @@ func TestChild(t *testing.T) {
 func TestCheck(t *testing.T) {
 	run := report.New("C12", "exploration")
 	defer run.Finish(t)
-	run.Rule("rounds on the real clock: 1-32 goroutines issue Call with delays from {negative, 0, one equal value, 1-50 ms, 10-60 s (always cancelled)}, callbacks that return at once or block 1-20 ms, pool limit 1/2/10, idle timeout 20/50 ms (hook), modes mixed/busy/saturated/winding-down/equal-delays; cancellation at once, twice, later by another goroutine, after firing. Per future: start >= call time + delay (one-sided), started at most once, never started if a Cancel returned before it was due, started if never cancelled - decided after the drain detector saw the final state (nothing pending, no worker, read under the package lock); the heap-index invariant hook is sampled concurrently. evaluations = futures; distinct = distinct round configurations")
+	run.Rule("rounds on the real clock: 1-32 goroutines issue Call with delays from {negative, 0, one equal value, 1-50 ms, 10-60 s, and 'never' (MaxInt64 and neighbours, centuries; always cancelled)}, callbacks that return at once or block 1-20 ms, pool limit 1/2/10, idle timeout 20/50 ms (hook), modes mixed/busy/saturated/winding-down/equal-delays; cancellation at once, twice, later by another goroutine, after firing. Per future: start >= call time + delay (one-sided), started at most once, never started if a Cancel returned before it was due, started if never cancelled - decided after the drain detector saw the final state (nothing pending, no worker, read under the package lock); the heap-index invariant hook is sampled concurrently. evaluations = futures; distinct = distinct round configurations")
 	run.Assume("never-early compares the callback's start with a timestamp taken before Call, so machine load cannot produce a false alarm; lateness is only reported, not judged (C13)")
 
 	if p := os.Getenv("VERIF_REPLAY"); p != "" {
